@@ -133,6 +133,14 @@ def cross_script_section(ctx):
         ls = [("DFLT", "dflt")] + [(t, "dflt") for t in tags]
         # named language systems for some of the scripts: each must expose what the script's default one does
         ls += [(t, LANGS[t]) for k, t in enumerate(tags) if t in LANGS and (i + k) % 2 == 0]
+        if i % 3 == 1:
+            # a script's named language declared BEFORE its default one (only "DFLT dflt" has to come first), and one more
+            # named language per script after it
+            named = [(t, lg) for t, lg in ls if lg != "dflt"]
+            if not named:
+                named = [(t, LANGS[t]) for t in tags if t in LANGS][:1]
+            ls = [("DFLT", "dflt")] + named + [(t, "dflt") for t in tags] + [(t, "ZZZ ") for t, _ in named[:1]]
+            ctx.klass("cross-script: named language declared before the script's default")
         desc = {"glyphs": glyphs, "kerning": dict(pairs), "features": "".join("languagesystem %s %s;\n" % sl for sl in ls)}
         lib = ["ufoLib2", "defcon"][i % 2]
         case = {"font": jsonable(dict(desc, kerning={"%s|%s" % k: v for k, v in desc["kerning"].items()})), "lib": lib,
